@@ -2,6 +2,7 @@
 SPECIFICATION TSpec
 CONSTANTS
   Inst = {"v1", "v2", "v3", "v4"}
+  MaxHeal = 3
   MaxVal = 10
   Allowed = {"SharedCache", "LoopRefetch", "Ed25519Unsupported"}
   Forced = {}
